@@ -270,6 +270,72 @@ def mllMagnitudeTest (lg : α → α) (K : Nat) (sims : List Grid) (obs : Grid) 
     { status := .normal, observed := some (.fin obsD), quantile := quantiles dist (.fin obsD),
       distribution := dist }
 
+/-! ## observed catalogs that were not cut to the magnitude range
+
+An observed catalog may hold `nOut` events below the first magnitude edge (`magnitude_counts`, catalogs.py:704,
+leaves them out of every bin; events above the last edge fall into the open top bin and ARE in the count matrix).
+Such events count for `observed_catalog.event_count` — the statistic of the number test
+(catalog_evaluations.py:48) and the empty-observation short-circuit of the three magnitude tests (:159, :401,
+:535) — but not for the magnitude histograms, whose sum is the `n_obs` that normalises the magnitude statistics
+(:182, :431, :571).  `obs` stays the count matrix of the events inside the magnitude range. -/
+
+/-- number test for an observed catalog with `nOut` further events outside the magnitude range: all are counted -/
+def numberTestOut (sims : List Grid) (obs : Grid) (nOut : Nat) : NResult :=
+  let counts := sims.map eventCount
+  { distribution := counts, observed := eventCount obs + nOut,
+    quantile := Ecdf.getQuantiles (counts.map (fun (n : Nat) => (n : Rat))) ((eventCount obs + nOut : Nat) : Rat) }
+
+/-- `magnitude_test` after its short-circuit (:176-224): everything is computed from the histograms -/
+def magnitudeCore (C K : Nat) (sims : List Grid) (obs : Grid) : Result α :=
+  let m : List (List α) := meanRates C K sims
+  let union := magRates K m
+  let nUnion := RealOps.sum union
+  let obsH := magCounts K obs
+  let nObs := obsH.sum                                             -- :182 `numpy.sum(obs_histogram)`
+  if isZero nUnion then
+    { status := .normal, observed := none, quantile := .pair none none, distribution := [] }
+  else
+    let scaled := union.map fun u => RealOps.mul u (RealOps.div (RealOps.ofNat nObs) nUnion)
+    let l10su := scaled.map fun x => log10 (RealOps.add x RealOps.one)
+    let dist := sims.filterMap fun g => dStat nObs l10su (magCounts K g)
+    let obsD := cumulativeSquareDiff (logHist obsH RealOps.one) l10su
+    { status := .normal, observed := some (.fin obsD), quantile := quantiles dist (.fin obsD),
+      distribution := dist }
+
+/-- `resampled_magnitude_test` after its short-circuit (:416-486) -/
+def resampledCore (K : Nat) (sims : List Grid) (obs : Grid) (draws : List (List Nat)) : Result α :=
+  let unionH := unionHist K sims
+  let nUnion := unionH.sum
+  let obsH := magCounts K obs
+  let nObs := obsH.sum                                             -- :431
+  let scale : α := RealOps.div (RealOps.ofNat nObs) (RealOps.ofNat nUnion)
+  let l10su := logHist unionH scale
+  let dist := draws.filterMap fun mc => dStat nObs l10su mc
+  let obsD := cumulativeSquareDiff (logHist obsH RealOps.one) l10su
+  { status := .normal, observed := some (.fin obsD), quantile := quantiles dist (.fin obsD),
+    distribution := dist }
+
+/-- `MLL_magnitude_test` after its short-circuit (:557-612) -/
+def mllCore (lg : α → α) (K : Nat) (sims : List Grid) (obs : Grid) (draws : List (List Nat)) : Result α :=
+  let unionH := unionHist K sims
+  let obsD := mllScore lg unionH (magCounts K obs)
+  let dist := draws.map fun mc => ELL.fin (mllScore lg unionH mc)
+  { status := .normal, observed := some (.fin obsD), quantile := quantiles dist (.fin obsD),
+    distribution := dist }
+
+/-- the three magnitude tests on an observed catalog with `nOut` further events below the first magnitude edge:
+    the short-circuit looks at `event_count` (all events), the statistic at the histograms (events in range) -/
+def magnitudeTestOut (C K : Nat) (sims : List Grid) (obs : Grid) (nOut : Nat) : Result α :=
+  if eventCount obs + nOut = 0 then emptyObsResult else magnitudeCore C K sims obs
+
+def resampledMagnitudeTestOut (K : Nat) (sims : List Grid) (obs : Grid) (draws : List (List Nat)) (nOut : Nat) :
+    Result α :=
+  if eventCount obs + nOut = 0 then emptyObsResult else resampledCore K sims obs draws
+
+def mllMagnitudeTestOut (lg : α → α) (K : Nat) (sims : List Grid) (obs : Grid) (draws : List (List Nat))
+    (nOut : Nat) : Result α :=
+  if eventCount obs + nOut = 0 then emptyObsResult else mllCore lg K sims obs draws
+
 /-! ## calibration test (catalog_evaluations.py:337-374): the skip rule and the exact KS distance -/
 
 /-- one member of a `quantile` tuple: a probability k/n, `None`, or the sentinel −1 -/
